@@ -606,6 +606,41 @@ pub fn sweeps(thorough: bool) -> Vec<(Program, String)> {
 	add(prog(vec![st(vec![FieldTy::Logical(Lg::CustomFixed(4)), FieldTy::Logical(Lg::CustomFixed(4)), FieldTy::Fixed(4)])]), "custom logical type on [u8; 4], twice, next to a plain [u8; 4]");
 	add(prog(vec![st(vec![pl(nm(1)), pl(nm(2))]), st(vec![FieldTy::Logical(Lg::CustomFixed(4))]), st(vec![FieldTy::Logical(Lg::CustomFixed(4)), FieldTy::Logical(Lg::Duration)])]), "records owning custom / duration fixed types under one root");
 
+	// S7c: a logical-type attribute over base type T next to PLAIN uses of T (the logical node is a
+	// private patched duplicate; the plain use must get its own, un-annotated node), both orders,
+	// logical / plain / logical, and the plain use one level down
+	let dec4 = Lg::DecFixed { size: 4, scale: 1, precision: 5 };
+	let dec16 = Lg::DecFixed { size: 16, scale: 2, precision: 20 };
+	let over: Vec<(Lg, FieldTy, Vec<FieldTy>)> = vec![
+		(Lg::DecImplicit { scale: 2, precision: 10 }, FieldTy::Bytes, vec![FieldTy::OptBytes]),
+		(Lg::DecBytes { scale: 3, precision: 12 }, FieldTy::Bytes, vec![FieldTy::OptBytes]),
+		(dec4.clone(), FieldTy::Fixed(4), vec![]),
+		(Lg::CustomFixed(4), FieldTy::Fixed(4), vec![]),
+		(dec16, FieldTy::Fixed(16), vec![]),
+		(Lg::Duration, FieldTy::Fixed(12), vec![]),
+		(Lg::Alt(Box::new(Lg::Duration)), FieldTy::Fixed(12), vec![]),
+		(Lg::Uuid, pl(str_()), vec![pl(vec_(str_())), pl(opt(str_())), pl(bmap(str_()))]),
+		(Lg::Date, pl(i32_()), vec![pl(vec_(i32_())), pl(opt(i32_())), pl(lf(Leaf::U16))]),
+		(Lg::TimeMillis, pl(i32_()), vec![pl(vec_(i32_())), pl(opt(i32_())), pl(lf(Leaf::I8))]),
+		(Lg::TimeMicros, pl(lf(Leaf::I64)), vec![pl(vec_(lf(Leaf::I64))), pl(opt(lf(Leaf::I64))), pl(lf(Leaf::U32))]),
+		(Lg::TsMillis, pl(lf(Leaf::I64)), vec![pl(vec_(lf(Leaf::I64))), pl(opt(lf(Leaf::I64))), pl(lf(Leaf::U64))]),
+		(Lg::TsMicros, pl(lf(Leaf::I64)), vec![pl(vec_(lf(Leaf::I64))), pl(opt(lf(Leaf::I64))), pl(lf(Leaf::Usize))]),
+		(Lg::Alt(Box::new(Lg::TimeMicros)), pl(lf(Leaf::I64)), vec![pl(opt(lf(Leaf::I64)))]),
+	];
+	for (l, plain, nested) in over {
+		let lf_ = || FieldTy::Logical(l.clone());
+		let n = Placed::logical_name(&l);
+		add(prog(vec![st(vec![lf_(), plain.clone()])]), &format!("logical {n} field, then a plain field of its base type"));
+		add(prog(vec![st(vec![plain.clone(), lf_()])]), &format!("plain field, then a logical {n} field over the same base type"));
+		add(prog(vec![st(vec![lf_(), plain.clone(), lf_()])]), &format!("logical {n} / plain / logical {n}"));
+		add(prog(vec![st(vec![lf_(), pl(nm(1))]), st(vec![plain.clone()])]), &format!("logical {n} field, then the plain base type in a sub-record"));
+		add(prog(vec![st(vec![pl(nm(1)), plain.clone()]), st(vec![lf_()])]), &format!("logical {n} field in a sub-record, then the plain base type"));
+		add(prog(vec![st(vec![pl(nm(1)), pl(nm(2))]), Def::Newtype { field: lf_() }, Def::Newtype { field: plain.clone() }]), &format!("newtype struct with logical {n}, then a newtype struct over the plain base type"));
+		for nf in nested {
+			add(prog(vec![st(vec![lf_(), nf])]), &format!("logical {n} field, then the plain base type one level down"));
+		}
+	}
+
 	// S8: recursion
 	let list = |p: Ptr| st(vec![pl(lf(Leaf::I64)), pl(opt(ptr(p, nm(0))))]);
 	for p in [Ptr::Box, Ptr::Rc, Ptr::Arc] {
